@@ -227,14 +227,17 @@ class Run:
         # confirm violations by replay (twice, identical) before they are believed
         confirmed = []
         unconfirmed = []
+        n_task_replays = 0
         printed = set()
         for v in self.violations:
             if len(unconfirmed) >= 40 and not confirmed:
                 break
             if self.module is not None and hasattr(self.module, "run_case") and len(confirmed) < 25:
                 try:
-                    r1 = self.module.run_case(v["case"])
-                    r2 = self.module.run_case(v["case"])
+                    # (in fresh forks, like the tasks themselves: the parent process never executes library operations,
+                    # so that every fork starts from the same module-level state)
+                    r1 = in_fresh_fork(self.module.run_case, v["case"])
+                    r2 = in_fresh_fork(self.module.run_case, v["case"])
                 except Exception:
                     print("HARNESS-ERROR: replay of a violation crashed:\n" + traceback.format_exc())
                     self._write_evidence(wall, failed=True)
@@ -242,9 +245,15 @@ class Run:
                 s1 = sorted(short_hash(x["sig"]) for x in r1)
                 s2 = sorted(short_hash(x["sig"]) for x in r2)
                 if s1 != s2 or short_hash(v["sig"]) not in s1:
-                    # seen once during the exploration but not when its history is replayed on its own: state leaked
-                    # from another transition (module-level state of the library, a damaged class).  Never believed;
-                    # fatal unless some other violation of this run does replay.
+                    # Not reproduced by its own history alone: it needs state built up by earlier transitions of the
+                    # same task (a module- or class-level memo of the library).  Every task runs in its own fresh fork,
+                    # so the whole task is the replayable unit: believed iff two fresh runs of the task report it again.
+                    if n_task_replays < 6 and task_replay(v):
+                        n_task_replays += 1
+                        v["detail"]["replay_unit"] = "task (history dependent: needs state left behind by earlier transitions of the same task)"
+                        confirmed.append(v)
+                        continue
+                    n_task_replays += 1
                     unconfirmed.append((v, s1, s2))
                     continue
             confirmed.append(v)
@@ -337,9 +346,58 @@ def pmap(fn, items, workers=None, chunksize=1):
             yield _call((fn, it))
         return
     ctx = multiprocessing.get_context("fork")
-    with ctx.Pool(min(workers, len(items))) as pool:
-        for r in pool.imap_unordered(_call, [(fn, it) for it in items], chunksize):
+    # One fresh fork of the (idle) parent per task: module- and class-level state of the library that a task builds
+    # up (memo tables, lazily built singletons) can never leak into another task, so what a task reports is a function
+    # of the task alone - and can be reproduced by running that task again (see Run.task_replay).
+    with ctx.Pool(min(workers, len(items)), maxtasksperchild=1) as pool:
+        for r in pool.imap_unordered(_call_tagged, [(fn, it) for it in items], chunksize):
             yield r
+
+
+def _call_tagged(args):
+    fn, item = args
+    rec = _call(args)
+    if isinstance(rec, dict) and rec.get("violations"):
+        tag = {"fn": fn.__module__ + ":" + fn.__name__, "item": jsonable(item)}
+        for v in rec["violations"]:
+            v.setdefault("_task", tag)
+    return rec
+
+
+def _apply(args):
+    fn, a = args
+    return fn(*a)
+
+
+def in_fresh_fork(fn, *a):
+    ctx = multiprocessing.get_context("fork")
+    with ctx.Pool(1, maxtasksperchild=1) as pool:
+        return pool.apply(_apply, ((fn, a),))
+
+
+def run_task_fresh(tag):
+    """run the task a violation came from in a fresh fork; -> its record"""
+    import importlib
+
+    modname, fname = tag["fn"].split(":")
+    fn = getattr(importlib.import_module(modname), fname)
+    ctx = multiprocessing.get_context("fork")
+    with ctx.Pool(1, maxtasksperchild=1) as pool:
+        return pool.apply(_call, ((fn, tag["item"]),))
+
+
+def task_replay(v):
+    """True iff the task reproduces this very violation (same signature, same case) in two fresh runs"""
+    tag = v.get("_task")
+    if not tag:
+        return False
+    want = (short_hash(v["sig"]), short_hash(v["case"]))
+    for _ in range(2):
+        rec = run_task_fresh(tag)
+        got = {(short_hash(x["sig"]), short_hash(x["case"])) for x in rec.get("violations", [])}
+        if want not in got:
+            return False
+    return True
 
 
 class Counter:
